@@ -41,6 +41,9 @@ def gen_metadata(rng, nested=True):
     d = {"k%d" % i: rng.choice(["v", 1, None, True, b"bytes"]) for i in range(rng.randrange(0, 4))}
     if nested and rng.random() < 0.5:
         d["nested"] = {"a": [1, 2, {"b": "c"}], "t": ("x", 1)}
+        if rng.random() < 0.6:
+            # containers reached only through a tuple
+            d["tupled"] = ("upstream", ["alice"], {"depth": 1}, (["deep"],))
     return d
 
 
